@@ -3,6 +3,7 @@ import Fabio.Driver.RouteJson
 import Fabio.Model.C01
 import Fabio.Model.Route
 import Fabio.Model.C01Compose
+import Fabio.Model.C01Sys
 /-!
 Driver handlers for C01.
 
@@ -16,7 +17,7 @@ the *spec* column is computed from the English rule `HealthyAt` directly (decida
 
 `buildSimple` mirrors `routecmd.build` (owned by C14) for the tag fragment the C01 generators emit:
 `<prefix>[host]/path`, `<prefix>:port`, options `proto=tcp|https|grpc|grpcs`, other `k=v` options, plain tags;
-no `$` expansion, no `weight=`/`redirect=`, ASCII only.
+`redirect=<code>,<url>`; no `$` expansion, no `weight=`, ASCII only.
 -/
 namespace Fabio.Driver.C01
 open Lean Fabio.Driver Fabio.Driver.RouteJson Fabio.Model.C01
@@ -60,6 +61,13 @@ def fields (s : Str) : List Str :=
     | c :: cs => if isSpace c then go [] (if cur.isEmpty then acc else acc ++ [cur.reverse]) cs else go (c :: cur) acc cs
   go [] [] s
 
+/-- `strings.Split(s, ",")` -/
+def splitOn (c : Char) (s : Str) : List Str :=
+  let rec go (cur : Str) (acc : List Str) : Str → List Str
+    | [] => acc ++ [cur.reverse]
+    | x :: xs => if x == c then go [] (acc ++ [cur.reverse]) xs else go (x :: cur) acc xs
+  go [] [] s
+
 def joinWith (sep : Str) : List Str → Str
   | [] => []
   | [x] => x
@@ -81,13 +89,23 @@ def buildSimple (pfx : Str) (i : Instance) : List (Str × RouteDef) :=
         | (h, some p) => Fabio.lowerL h ++ '/' :: p
     let addr := if i.serviceAddress.isEmpty then i.address else i.serviceAddress
     let hp := addr ++ S ":" ++ S (toString i.port)
-    let dst := opts.foldl (fun d o =>
-      if o == S "proto=tcp" then S "tcp://" ++ hp
-      else if o == S "proto=https" then S "https://" ++ hp
-      else if o == S "proto=grpcs" then S "grpcs://" ++ hp
-      else if o == S "proto=grpc" then S "grpc://" ++ hp
-      else d) (S "http://" ++ hp ++ S "/")
-    let ropts := opts.filter (fun o => !(o == S "proto=tcp" || o == S "proto=https" || o == S "proto=grpcs" || o == S "proto=grpc"))
+    let protoDst (o : Str) : Option Str :=
+      if o == S "proto=tcp" then some (S "tcp://" ++ hp)
+      else if o == S "proto=https" then some (S "https://" ++ hp)
+      else if o == S "proto=grpcs" then some (S "grpcs://" ++ hp)
+      else if o == S "proto=grpc" then some (S "grpc://" ++ hp)
+      else none
+    -- every tag starts from the instance's own address; `proto=` / `redirect=<code>,<url>` change the destination
+    -- of THIS tag only; an ill-formed `redirect=` is dropped
+    let (dst, ropts) := opts.foldl (fun (acc : Str × List Str) o =>
+      match protoDst o with
+      | some d => (d, acc.2)
+      | none =>
+        if (S "redirect=").isPrefixOf o then
+          match splitOn ',' (o.drop 9) with
+          | [code, url] => (url, acc.2 ++ [S "redirect=" ++ code])
+          | _ => acc
+        else (acc.1, acc.2 ++ [o])) (S "http://" ++ hp ++ S "/", [])
     let line := S "route add " ++ i.serviceName ++ S " " ++ route ++ S " " ++ dst ++
       (if svctags.isEmpty then [] else S " tags \"" ++ joinWith (S ",") svctags ++ S "\"") ++
       (if ropts.isEmpty then [] else S " opts \"" ++ joinWith (S " ") ropts ++ S "\"")
@@ -241,7 +259,10 @@ def pipelineH : Handler := fun inp impl => do
   let checks ← arrOf checkOf (field reg "checks")
   let cat ← arrOf instOf (field reg "catalog")
   let kv ← arrOf routeDef (field reg "kv")
-  let kvText := getStrD reg "kvtext"
+  -- the manual text is the model's `listKV` of the KV pairs as stored (keys, values with whatever white space and
+  -- comment lines surround the commands), not a text assembled on the Go side
+  let kvPairs ← arrOf (fun j => do let l ← strList j; pure (l.getD 0 [], l.getD 1 [])) (field reg "kvpairs")
+  let kvText := Fabio.Model.C01Sys.listKVText true kvPairs
   let env := envOf (field impl "oracle")
   let pf := pfOf (field impl "oracle")
   let implTable := field impl "table"
@@ -256,8 +277,18 @@ def pipelineH : Handler := fun inp impl => do
   let ps := pairsOf (checks.filter isServiceCheck) cat
   let faults := (impl.getObjValAs? Nat "faults").toOption.getD 0
   let jumps := (impl.getObjValAs? Nat "jumps").toOption.getD 0
+  let holds := (impl.getObjValAs? Nat "holds").toOption.getD 0
+  -- a route of the final state asks for an alias (`register=<name>`); the alias registration of this child fails
+  let wantsAlias := cat.any (fun i => i.tags.any (fun t => (fields t).any (fun o => (S "register=").isPrefixOf o))) ||
+    kv.any (fun d => d.opts.any (fun o => o.1 == S "register"))
+  let svcAddr := getStrD cfg "svcaddr"
+  let aliasFails := !(svcAddr.contains ':')
+  let multiTag := cat.any (fun i => decide (2 ≤ (buildSimple pfx i).length))
   let feature := (if kv.isEmpty then "nokv" else "kv") ++ (if strict then "-strict" else "-one") ++
-    (if faults > 0 then "-faults" else "") ++ (if jumps > 0 then "-indexjump" else "")
+    (if faults > 0 then "-faults" else "") ++ (if jumps > 0 then "-indexjump" else "") ++
+    (if holds > 0 then "-busy" else "") ++
+    (if wantsAlias then (if aliasFails then "-aliasfail" else "-alias") else "") ++
+    (if multiTag then "-multitag" else "")
   -- soundness at every observation point of the history (sync points; under faults too)
   let obs := match field impl "obs" with | .arr a => a.toList | _ => []
   let bad ← obs.mapM (unsoundTargets pfx st strict)
